@@ -181,7 +181,25 @@ class Bench:
         chunks = data if isinstance(data, (list, tuple)) else [data]
         if ending == "reset-after-read" and not any(chunks):
             ending = "reset"            # nothing to read: the server would wait forever for the first byte
+        sender = None
         try:
+            if sum(len(ch) for ch in chunks) > 150000 and ending == "halfclose":
+                # more than the socket buffers hold: the client writes while the worker runs (its bytes and their order are
+                # fixed all the same; only the kernel's buffering decides how they are cut into reads)
+                import threading
+
+                def _send():
+                    try:
+                        for ch in chunks:
+                            if ch:
+                                c.sendall(ch)
+                        c.shutdown(socket.SHUT_WR)
+                    except OSError:
+                        pass
+                sender = threading.Thread(target=_send, daemon=True)
+                sender.start()
+                chunks = []
+                ending = "halfclose-done"
             for ch in chunks:
                 if ch:
                     c.sendall(ch)
@@ -200,7 +218,9 @@ class Bench:
                     c.setsockopt(socket.SOL_SOCKET, socket.SO_LINGER, struct.pack("ii", 1, 0))
                     c.close()
                     time.sleep(0.002)
-            o = self._serve(s, c if ending in ("halfclose", "idle") else None, peer, after, idle=ending == "idle")
+            o = self._serve(s, c if ending in ("halfclose", "idle", "halfclose-done") else None, peer, after, idle=ending == "idle")
+            if sender is not None:
+                sender.join(10)
         finally:
             for x in (s, c):
                 try:
